@@ -7,12 +7,16 @@ open Gossamer Gossamer.C04
                         wd h | load h | gfd h k)
    output: the observables of the model run, `;`-joined; when the specification (a persisted root
    reloads to exactly the in-memory state, GetFromDB = in-memory Get) demands something else,
-   TAB `spec=<demanded observables>`. -/
+   TAB `spec=<demanded observables>`, and TAB `kf=child-tries-equal-content` if two child tries of
+   one trie had the same root hash at some point of the run (child_storage.go keys `childTries` by
+   root hash, so such tries share one map entry: a finding of the child-storage properties). -/
 def step (line : String) : String :=
   let ops := parseLine line
   let r := run Blake2b.hash256 ops
   let m := C02.joinWith ";" (r.map (·.1))
   let s := C02.joinWith ";" (r.map (·.2))
-  if m == s then m else m ++ "\tspec=" ++ s
+  if m == s then m
+  else m ++ "\tspec=" ++ s ++
+    (if runAliased Blake2b.hash256 St.init ops then "\tkf=child-tries-equal-content" else "")
 
 def main : IO Unit := runDriver step
